@@ -59,6 +59,10 @@ assumed('Sink.addValue', self_type='Sink',
         notes='the section / matcher interface: records the value or raises a configuration error; a '
               'conversion error carries the position it was given (proved for matcher.BaseMatcher.addValue)')
 
+# the position a conversion error carried when the section interface raised it (ghost names for
+# "the value at raise time": the parser may only FILL IN a missing position, never replace one)
+prim('raised_lineno', 'Ref[__init__.ConfigurationError] -> Opt[int]')
+prim('raised_url', 'Ref[__init__.ConfigurationError] -> Opt[str]')
 model('ParserContext', fields={}, external=True)
 CTX_MOD = ['*Sink.events']
 assumed('ParserContext.startSection', self_type='ParserContext',
@@ -67,7 +71,8 @@ assumed('ParserContext.startSection', self_type='ParserContext',
 assumed('ParserContext.endSection', self_type='ParserContext',
         params={'section': 'Ref[Sink]', 'type_': 'str', 'name': 'Opt[str]', 'newsect': 'Ref[Sink]'},
         modifies=CTX_MOD, raises=[Raise('ZConfig.ConfigurationError+', then=ERR_THEN + [
-            Clause("implies(isa(exc, 'ZConfig.DataConversionError'), exc.has_lineno)")])])
+            Clause("implies(isa(exc, 'ZConfig.DataConversionError'), exc.has_lineno and "
+                   "exc.lineno == raised_lineno(exc) and exc.url == raised_url(exc))")])])
 assumed('ParserContext.importSchemaComponent', self_type='ParserContext', params={'pkgname': 'str'},
         modifies=CTX_MOD, raises=[Raise('ZConfig.ConfigurationError+')])
 assumed('ParserContext.includeConfiguration', self_type='ParserContext',
@@ -210,6 +215,14 @@ contract('cfgparser.ZConfigParser.handle_include',
 prim('hdr_empty', 'str -> bool', native=lambda rest: rest[-1:] == '/', smt=None)
 
 
+POS_CLOSE = [Clause("exc.has_lineno and exc.lineno is not None", carries='C08', label='has-line'),
+             Clause("implies((isa(exc, 'ZConfig.DataConversionError') and raised_lineno(exc) is not None and val(raised_lineno(exc)) >= 0), exc.lineno == raised_lineno(exc))", carries='C08',
+                    label='line-of-the-failing-value-kept'),
+             Clause("implies(not (isa(exc, 'ZConfig.DataConversionError') and raised_lineno(exc) is not None and val(raised_lineno(exc)) >= 0), exc.lineno == self.lineno)", carries='C08', label='else-the-closing-line'),
+             Clause("implies((isa(exc, 'ZConfig.DataConversionError') and raised_url(exc) is not None and val(raised_url(exc)) != ''), exc.url == raised_url(exc))", carries='C08',
+                    label='resource-of-the-failing-value-kept'),
+             Clause("implies(not (isa(exc, 'ZConfig.DataConversionError') and raised_url(exc) is not None and val(raised_url(exc)) != ''), exc.url == self.url)", carries='C08', label='else-this-resource')]
+
 contract('cfgparser.ZConfigParser.start_section',
          params={'section': 'Ref[Sink]', 'rest': 'str'}, returns='Ref[Sink]',
          requires=[Clause("'\\n' not in rest", label='single-line')],
@@ -226,21 +239,12 @@ contract('cfgparser.ZConfigParser.start_section',
                   Clause("implies(rest[-1:] != '/', self.stack == old(self.stack) + "
                          "[(sec_type(hdr_text(rest)).lower(), lower_opt(sec_name(hdr_text(rest))), section)])",
                          carries='C03', label='pushes-open-section')],
-         raises=[Raise('ZConfig.ConfigurationError+', then=[
-             Clause("exc.has_lineno and exc.lineno is not None and (exc.lineno == self.lineno or "
-                    "(isa(exc, 'ZConfig.DataConversionError') and val(exc.lineno) >= 0))", carries='C08',
-                    label='position-line'),
-             Clause("exc.url == self.url or (isa(exc, 'ZConfig.DataConversionError') and exc.url is not None "
-                    "and val(exc.url) != '')", carries='C08', label='position-url'),
+         raises=[Raise('ZConfig.ConfigurationError+', then=POS_CLOSE + [
              Clause('self.stack == old(self.stack)', label='stack-unchanged')], carries='C08', label='config-error')])
 
 # a conversion error found when a section is closed keeps the position of the VALUE that failed
 # (recorded when the value was read); every other error is reported at the closing line
-POS_CLOSE = [Clause("exc.has_lineno and exc.lineno is not None and (exc.lineno == self.lineno or "
-                    "(isa(exc, 'ZConfig.DataConversionError') and val(exc.lineno) >= 0))", carries='C08',
-                    label='position-line'),
-             Clause("exc.url == self.url or (isa(exc, 'ZConfig.DataConversionError') and exc.url is not None "
-                    "and val(exc.url) != '')", carries='C08', label='position-url')]
+
 
 contract('cfgparser.ZConfigParser.end_section',
          params={'section': 'Ref[Sink]', 'rest': 'str'}, returns='Ref[Sink]',
